@@ -386,6 +386,13 @@ def check_C_huge_cohort(S, p):
         nz = {(j // shape[1], j % shape[1]): int(float(t)) for j, t in enumerate(ps[1]) if t != "0"}
         if nz != want:
             S.viol("C09:huge-cohort", "[C %d + %d listed samples] non-zero cells %r, expected %r" % (na, nb, sorted(nz.items())[:6], sorted(want.items())), wit)
+    # the same list with its LAST entry naming a sample the input does not have: an error, however long the list
+    bad_listing = b"".join(listing.splitlines(keepends=True)[:-1]) + b"sample_999999_not_there\tsmall\n"
+    rb = cli.sfs(["create", "-S", E.tmpfile(bad_listing, ".samples")], stdin=vcf, timeout=300)
+    S.count("C_huge_cohort_runs")
+    if rb.rc == 0 or rb.out or not rb.err.strip() or rb.panicked:
+        S.viol("C09:huge-cohort:absent-sample-accepted", "[C %d listed samples, the last one absent from the input] rc %s stdout %r stderr %r" % (na + nb, rb.rc, rb.out[:60], rb.err[:200]),
+               {"level": "C", "argv": rb.argv, "samples": na + nb, "rc": rb.rc, "stderr": rb.err[:300].decode("latin1")})
     S.case(key=digest(["huge", na, nb, S.seed]), nontrivial=True)
 
 
